@@ -80,6 +80,7 @@ structure DState where
   lcoef   : List (String × Int) := []
   polys   : List (String × List (Rat × List Nat)) := []
   sg      : SGrid := { kpl := 2 }
+  scomps  : List (String × List String × List (String × List (Rat × List Nat))) := []
 
 def stepIdx (st : DState) (cmd : String) (args : List String) : DState × String :=
   match cmd, args with
@@ -288,6 +289,54 @@ def stepSg (st : DState) (cmd : String) (args : List String) : DState × String 
   | "sg.stored", [] => (st, ";".intercalate ((sortBy keyLt st.sg.stored).map showKey))
   | _, _ => (st, "bad-op")
 
+/-- component with polynomial outputs over its inputs (in the order of `ins`) -/
+def mkSComp (name : String) (ins : List String) (outs : List (String × List (Rat × List Nat))) : SComp :=
+  { name := name, ins := ins, outs := outs.map (·.1),
+    fn := fun env v =>
+      match outs.find? (·.1 == v) with
+      | some (_, p) => polyEval p (ins.map env)
+      | none => 0 }
+
+def stepSys (st : DState) (cmd : String) (args : List String) : DState × String :=
+  let parts := splitBar args
+  match cmd, parts with
+  | "sys.reset", _ => ({ st with scomps := [] }, "ok")
+  -- sys.comp name | in1 in2 .. | out1 : c k1 k2 ; c k1 k2 | out2 : ...
+  | "sys.comp", [name] :: ins :: outs =>
+      let parsed := outs.mapM fun toks =>
+        match toks with
+        | o :: ":" :: body =>
+            let terms := (splitSemi body).mapM fun t =>
+              match t with
+              | c :: ks => do
+                  let cq ← parseRat? c
+                  let kn ← ks.mapM String.toNat?
+                  some (cq, kn)
+              | [] => none
+            terms.map fun t => (o, t)
+        | _ => none
+      match parsed with
+      | some os => ({ st with scomps := st.scomps ++ [(name, ins, os)] }, "ok")
+      | none => (st, "bad-op")
+  -- sys.predict var=val var=val ... | target target ...   (targets may be empty = all produced variables)
+  | "sys.predict", [binds, targets] =>
+      let xs := binds.mapM fun b =>
+        match b.splitOn "=" with
+        | [v, q] => (parseRat? q).map fun r => (v, r)
+        | _ => none
+      match xs with
+      | some x =>
+          let cs := st.scomps.map fun (n, i, o) => mkSComp n i o
+          let env0 : Env := fun v => ((x.find? (·.1 == v)).map (·.2)).getD 0
+          let env := predictFF cs env0
+          let vars := if targets.isEmpty then produced cs else targets
+          let sorted := sortBy (fun a b => a < b) vars
+          (st, " ".intercalate (sorted.map fun v => v ++ "=" ++ showRat (env v)) ++
+               " | order=" ++ ",".intercalate ((toposort cs).map (·.name)) ++
+               " topo=" ++ toString (isTopo cs [] (toposort cs)))
+      | none => (st, "bad-op")
+  | _, _ => (st, "bad-op")
+
 def step (st : DState) (line : String) : DState × String :=
   match (line.trimAscii.toString.splitOn " ").filter (· ≠ "") with
   | [] => (st, "")
@@ -296,6 +345,7 @@ def step (st : DState) (line : String) : DState × String :=
       else if cmd.startsWith "itp." then stepItp st cmd args
       else if cmd.startsWith "poly." then stepPoly st cmd args
       else if cmd.startsWith "sg." then stepSg st cmd args
+      else if cmd.startsWith "sys." then stepSys st cmd args
       else (st, "bad-op")
 
 partial def loop (h : IO.FS.Stream) (out : IO.FS.Stream) (st : DState) : IO Unit := do
